@@ -66,7 +66,7 @@ func init() {
 		Packages: []string{pkgDecorator},
 		Build: func(p *Program, tier string) ([]*Unit, []UnitError) {
 			us, es := buildFuncUnits(p, []string{
-				fr("applySpace"), fr("applyDecorations"),
+				fr("applySpace"), fr("applyDecorations"), fr("applyLiteral"),
 				fr("verifLemmaSiblingSpacing"), fr("verifLemmaBadNodeAfter"), fr("verifLemmaCommentThenSpace"), fr("verifLemmaBlockCommentThenSpace"),
 				fr("verifLemmaAfterOpeningToken"), fr("verifLemmaBeforeClosingToken"),
 			}, nil)
